@@ -52,6 +52,21 @@ CLAIMS["C04"] = dict(
     technique="TLA+ step relations evaluated by TLC on recorded implementation steps (trace validation) over TLC-enumerated graphs and sample files",
     design="DESIGN.md §3.1, §4 C04")
 
+CLAIMS["C14"] = dict(
+    category="model_checking",
+    text=("Every shape of every sample (quick: up to 6 per file) is cloned twice into {the same model, a fresh model of the same version, "
+          "another loaded sample of the same version, a fresh model that already holds only the ancestor bone of a re-nested skeleton}. "
+          "The harness records the sub-graph below the source shape and below the clone (block types, content ids with reference and "
+          "string-index fields masked, strong references and weak pointers as positions within the sub-graph or as the name of the node "
+          "they designate), bone lists, node existence/parents, source raw-save bytes before/after and the clone as found after save and "
+          "reload. TLC judges NifCopyTrace!CloneViol on each event: same types, contents, reference and pointer structure, no reference "
+          "outside the destination, none shared with the source, same bone names all existing, source unchanged, reload has the clone "
+          "with the same geometry."),
+    note=("Pointers to a model's root compare as 'root' whatever its name. The renamed shape block itself is exempt from the content "
+          "comparison in versions with inline strings. Bounded by the samples and the four destinations."),
+    technique="TLC trace validation of recorded clone sub-graphs (NifCopyTrace!CloneViol) over sample shapes x destinations x repeated cloning",
+    design="DESIGN.md §4 C14",
+)
 CLAIMS["C15"] = dict(
     category="fault_enumeration",
     text=("The fault space is defined in TLA+: NifFault.tla enumerates Corrupt(reference field, value) for every serialised reference of "
